@@ -29,8 +29,13 @@ func checkC04(e *Env) {
 			continue
 		}
 		cn := prov.CalleeName(st.Call.Common())
-		if strings.HasPrefix(cn, "invoke:io.Writer.") || cn == "io.Copy" || cn == "io.CopyN" || cn == "io.WriteString" || strings.HasPrefix(cn, "binary.") || strings.HasPrefix(cn, "fmt.F") {
-			leafWriters[n] = true
+		if strings.HasPrefix(cn, "invoke:io.Writer.") || cn == "io.Copy" || cn == "io.CopyN" || cn == "io.WriteString" || strings.HasPrefix(cn, "binary.") || strings.HasPrefix(cn, "fmt.F") ||
+			cn == "(*bytes.Buffer).WriteTo" || cn == "(*bytes.Reader).WriteTo" {
+			// a helper the rule tables do not know writes on behalf of the known
+			// functions that call it
+			for _, owner := range knownCallers(e, st.Fn, 0) {
+				leafWriters[owner] = true
+			}
 		}
 	}
 	want := []string{"internal/cbor.(*Encoder).EncodeBool", "internal/cbor.(*Encoder).EncodeMap", "internal/cbor.(*Encoder).encodeBytes", "internal/cbor.(*Encoder).encodeTypedUint"}
@@ -150,6 +155,39 @@ func checkC04(e *Env) {
 	e.R.Floor("GATE", 10)
 	e.R.Floor("FORALL", 6)
 	e.R.Floor("TABLE", 10)
+}
+
+// knownCallers: fn itself when the rule tables know it, otherwise the known
+// functions that (transitively, through unknown helpers) call it; an unknown
+// function nobody calls stands for itself.
+func knownCallers(e *Env, fn *ssa.Function, depth int) []string {
+	root := fn
+	for root.Parent() != nil {
+		root = root.Parent()
+	}
+	if prov.KnownFunction(root) || depth > 3 {
+		return []string{load.FuncName(root)}
+	}
+	seen := map[string]bool{}
+	var out []string
+	if node := e.P.VTA().Nodes[root]; node != nil {
+		for _, in := range node.In {
+			if in.Caller == nil || in.Caller.Func == nil || !e.P.InModule(in.Caller.Func) {
+				continue
+			}
+			for _, o := range knownCallers(e, in.Caller.Func, depth+1) {
+				if !seen[o] {
+					seen[o] = true
+					out = append(out, o)
+				}
+			}
+		}
+	}
+	if len(out) == 0 {
+		return []string{load.FuncName(root)}
+	}
+	sort.Strings(out)
+	return out
 }
 
 // tableAndBodies: writeSectionOffsets, writeSectionHeader and the body loop of
